@@ -26,18 +26,18 @@ def r1_inittoken(ctx, prog):
     r.instances, r.paths = sub.rules[0].instances, sub.rules[0].paths
 
 
-def r2_createtoken(ctx, prog):
-    r = ctx.rule('C14.R2', 're-initialisation: SO PIN first, no login state left behind on failure, no stale PIN blob kept, user PIN removed', floor=10, engine='E1+E3 finite-domain')
+def r2_createtoken(ctx, prog, rule_id='C14.R2'):
+    r = ctx.rule(rule_id, 're-initialisation: SO PIN first, no login state left behind on failure, no stale PIN blob kept, user PIN removed', floor=10, engine='E1+E3 finite-domain')
     f = prog.fn('Token::createToken')
     ctx.analysed(f)
     rec = {'loginSO', 'loginUser', 'logout', 'resetToken', 'newToken', 'destroyToken', 'setSOPIN', 'new SecureDataManager', 'ctor SecureDataManager', 'operator=', 'getSOPIN', 'getUserPIN', 'getSOPINBlob', 'getUserPINBlob'}
-    for d in product({'blob': [0, 40], 'pin': [0, 1], 'reset': [0, 1]}):
-        cenv = {'token': 1, 'sdm': 1, param_name(f, 0): 1, param_name(f, 2): 1, re.compile(r'getTokenFlags@\d+\(.*\)'): 1, re.compile(r'size\(getSOPINBlob\(\w+\)\)|size\(soPINBlob\)'): d['blob'],
+    for d in product({'blob': [0, 40], 'pin': [0, 1], 'reset': [0, 1], 'label': [1, 0]}):
+        cenv = {'token': 1, 'sdm': 1, param_name(f, 0): 1, param_name(f, 2): d['label'], re.compile(r'getTokenFlags@\d+\(.*\)'): 1, re.compile(r'size\(getSOPINBlob\(\w+\)\)|size\(soPINBlob\)'): d['blob'],
                 re.compile(r'loginSO@\d+\(\w+,\w+\)'): d['pin'], re.compile(r'resetToken@\d+\(.*\)'): d['reset'], re.compile(r'getSOPIN@\d+\(.*\)|getUserPIN@\d+\(.*\)'): 1}
         o = outcomes(f, prog, cenv, record=rec)
         r.paths += len(o.outcomes)
-        site = 're-init so-pin-set=%d pin-check=%d reset-ok=%d' % (bool(d['blob']), d['pin'], d['reset'])
-        must_refuse = d['blob'] and not d['pin']
+        site = 're-init so-pin-set=%d pin-check=%d reset-ok=%d' % (bool(d['blob']), d['pin'], d['reset']) + ('' if d['label'] else ' label=NULL')
+        must_refuse = (d['blob'] and not d['pin']) or not d['label']
         bad = None
         for oc in o.outcomes:
             evs = oc['events']
